@@ -32,7 +32,7 @@ ASSUMPTIONS = [
     "intron-containing multi-exon locations are only used for string round trip, make_forwards, bridging detection and exon pruning",
 ]
 BOUNDS = {
-    "quick": "pairs/offset/extend/string L=3..9; connect lists of <=2 L<=9, of 3 L<=6; __lt__ triples L<=5",
+    "quick": "pairs/offset/extend/string L=3..9 (pairs incl. two-exon locations for L<=8); connect lists of <=2 L<=9, of 3 L<=6; __lt__ triples L<=5",
     "thorough": "pairs/offset/extend/string L=3..16; connect lists of <=2 L<=16, of 3 L<=9; __lt__ triples L<=7",
 }
 REQUIRED_BUCKETS = {t: ["pair:overlapping", "pair:disjoint", "pair:bridging-operand", "connect:result-bridges",
@@ -53,7 +53,7 @@ def shards(tier):
     toplt = 5 if tier == "quick" else 7
     out = []
     for L in range(3, top + 1):
-        out.append(["pair", L])
+        out.append(["pair", L, 8 if tier == "quick" else 11])
         out.append(["offset", L])
         out.append(["extend", L])
         out.append(["string", L])
@@ -85,8 +85,9 @@ def check_pair(L, a, b):
     except Exception as err:  # pylint: disable=broad-except
         fails.append(("contains-raised", repr(err)))
     both_simple = len(a.parts) == 1 and len(b.parts) == 1
+    bridging = any(len(x.parts) > 1 and location_bridges_origin(x) for x in (a, b))
     for circular in (True, False):
-        if not circular and not both_simple:
+        if not circular and bridging:
             continue
         exp = R.distance(A, B, L, circular)
         try:
@@ -258,6 +259,9 @@ def run_shard(shard):
     _recs(L)
     if kind == "pair":
         universe = u_loc(L, (1, -1))
+        if L <= shard[2]:
+            # intron-containing two-exon locations: distances are between the closest bases of any parts
+            universe = universe + [m for m in _multi_exon(L) if len(m.parts) == 2 and m.strand == 1]
         for a in universe:
             for b in universe:
                 res.evals += 1
